@@ -282,7 +282,54 @@ def parse_stored(path):
 # ------------------------------------------------------------------ complexes
 
 
-def gen_complex(rng):
+ALT_MODES = ("whole-block", "whole-interleaved", "partial-interleaved", "partial-block")
+
+
+def with_alt_locs(rng, ligand, feats):
+    """the ligand's HETATM records with alternate locations, as refinement programs deposit a ligand modelled in
+    two (sometimes three) conformations: the whole ligand or only some of its atoms carry altLoc identifiers; the
+    copies of one atom follow each other (interleaved) or the conformers are listed one after the other (block);
+    the identifiers need not be listed in alphabetical order. The first conformer keeps the MOL2 coordinates."""
+    mode = rng.choice(ALT_MODES)
+    feats.add("altloc:" + mode)
+    ids = ["A", "B"] if rng.random() < 0.8 else ["A", "B", "C"]
+    if len(ids) == 3:
+        feats.add("altloc:three-conformers")
+    if rng.random() < 0.4:
+        rng.shuffle(ids)
+        if ids[0] != "A":
+            feats.add("altloc:" + ids[0] + "-listed-first")
+    n = len(ligand)
+    if mode.startswith("whole"):
+        multi = set(range(n))
+    else:
+        multi = set(rng.sample(range(n), rng.randint(1, max(1, n - 1)))) if n > 1 else {0}
+    occ = f"{1.0 / len(ids):.2f}"
+
+    def copies(i):
+        res = []
+        for k, alt in enumerate(ids):
+            a = ligand[i].copy()
+            a.alt, a.occ = alt, occ
+            if k:
+                a.x, a.y, a.z = round(a.x + 0.35 * k, 3), round(a.y - 0.27 * k, 3), round(a.z + 0.41 * k, 3)
+            res.append(a)
+        return res
+
+    cp = {i: copies(i) for i in multi}
+    if mode.endswith("interleaved"):
+        recs = []
+        for i in range(n):
+            recs.extend(cp[i] if i in multi else [ligand[i]])
+    else:
+        # conformer by conformer; atoms without alternate locations are listed with the first conformer
+        recs = [cp[i][0] if i in multi else ligand[i] for i in range(n)]
+        for k in range(1, len(ids)):
+            recs.extend(cp[i][k] for i in range(n) if i in multi)
+    return recs, mode
+
+
+def gen_complex(rng, alt_locs=False):
     feats = set()
     _f, res = G.window(rng, rng.choice([3, 4, 5]))
     G.set_chain(res, "A", 1)
@@ -335,12 +382,67 @@ def gen_complex(rng):
         G.rigid(res2, [[1, 0, 0], [0, 1, 0], [0, 0, 1]], (c[0] - G.centroid(res2)[0], c[1] - G.centroid(res2)[1] + 45.0, c[2] - G.centroid(res2)[2]))
         chains.append(res2)
         feats.add("second-chain-after-ligand")
+    if alt_locs:
+        ligand, _mode = with_alt_locs(rng, ligand, feats)
     text = G.to_pdb(chains, ([ligand] + others) if order else (others + [ligand]))
     return text, "\n".join(mol2) + "\n", lig_res, lig_names, feats
 
 
-def check_complex(ctx: Ctx, rng):
-    text, mol2, lig_res, lig_names, feats = gen_complex(rng)
+def collapse_alt_locs(text, lig_res):
+    """the same file with the ligand in one conformation: of the records of one ligand atom name the first listed is kept, its altLoc blanked"""
+    seen, out = set(), []
+    for l in text.splitlines():
+        if l.startswith("HETATM") and l[17:20].strip() == lig_res:
+            if l[12:16].strip() in seen:
+                continue
+            seen.add(l[12:16].strip())
+            l = l[:16] + " " + l[17:]
+        out.append(l)
+    return "\n".join(out) + "\n"
+
+
+def ligand_output_oracle(lines, text, lig_res, lig, sigf, replay):
+    """clauses about the ligand's lines of the written PQR, all from the request: the MOL2 file (names, parameters, formal charges)
+    and the HETATM records of the PDB file. `lines` = token lists of a --whitespace --keep-chain PQR."""
+    out = []
+    lig_lines = [t for t in lines if t[3] == lig_res]
+    want = {n: (q, rad) for n, q, rad in zip(lig["names"], lig["charge"], lig["radius"])}
+    # each MOL2 atom name exactly once
+    count = {n: sum(1 for t in lig_lines if t[2] == n) for n in lig["names"]}
+    wrong = {n: c for n, c in count.items() if c != 1}
+    if wrong:
+        out.append(({"aspect": "transfer", "kind": "ligand-atom-count", "features": sigf}, f"ligand atoms not written exactly once (name: times written): {dict(sorted(wrong.items())[:4])}", replay))
+    # the written charges of the ligand residue add up to the formal charge of the MOL2 molecule
+    try:
+        qs = [float(t[-2]) for t in lig_lines]
+        rs = [float(t[-1]) for t in lig_lines]
+        xyz = [tuple(float(v) for v in t[6:9]) for t in lig_lines]
+    except (ValueError, IndexError):
+        out.append(({"aspect": "transfer", "kind": "ligand-line-unreadable", "features": sigf}, "a ligand line of the PQR cannot be read", replay))
+        return out
+    formal = float(sum(lig["formal"]))
+    if lig_lines and abs(sum(qs) - formal) > 5.1e-5 * len(qs) + 1e-9:
+        out.append(({"aspect": "transfer", "kind": "ligand-charge-sum", "features": sigf}, f"the ligand's written charges sum to {sum(qs):.4f}, the MOL2 molecule's formal charge is {formal:g} ({len(qs)} lines for {len(lig['names'])} MOL2 atoms)", replay))
+    # every ligand line carries the parameters of the MOL2 atom of that name
+    bad = [(t[2], q, r) for t, q, r in zip(lig_lines, qs, rs) if t[2] in want and (abs(q - want[t[2]][0]) > 5.1e-5 or abs(r - want[t[2]][1]) > 5.1e-5)]
+    if bad:
+        n, q, r = bad[0]
+        out.append(({"aspect": "transfer", "kind": "ligand-parameters", "features": sigf}, f"ligand atom {n} written with charge {q}, radius {r}; its MOL2 atom has {want[n][0]:.4f}, {want[n][1]:.4f}", replay))
+    # and the position of one of the records of that name in the PDB file
+    recs = {}
+    for l in text.splitlines():
+        if l.startswith("HETATM") and l[17:20].strip() == lig_res:
+            recs.setdefault(l[12:16].strip(), []).append((float(l[30:38]), float(l[38:46]), float(l[46:54])))
+    off = [t[2] for t, p in zip(lig_lines, xyz) if t[2] in recs and not any(max(abs(a - b) for a, b in zip(p, c)) <= 1.1e-3 for c in recs[t[2]])]
+    if off:
+        out.append(({"aspect": "transfer", "kind": "ligand-position", "features": sigf}, f"ligand atom {off[0]} is written at a position none of its PDB records has", replay))
+    return out
+
+
+def check_complex(ctx: Ctx, rng, alt_locs=False):
+    text, mol2, lig_res, lig_names, feats = gen_complex(rng, alt_locs)
+    if alt_locs:
+        ctx.count("complex-ligand-alt-locs", ",".join(sorted(f[7:] for f in feats if f.startswith("altloc:"))))
     r = G.run_pipeline(text, ["--ff=AMBER", "--whitespace", "--keep-chain", "--ligand=@DIR@/lig.mol2"], extra_inputs={"lig.mol2": mol2})
     ctx.evaluations += 1
     ctx.count("complex-outcome", r.status)
@@ -363,6 +465,16 @@ def check_complex(ctx: Ctx, rng):
         r0 = G.run_pipeline(core_text, ["--ff=AMBER", "--whitespace", "--keep-chain", "--ligand=@DIR@/lig.mol2"], extra_inputs={"lig.mol2": mol2})
         ctx.evaluations += 1
         if r0.status != "ok":
+            if alt_locs:
+                # is it the alternate locations? the same complex with the ligand in its first-listed conformation only
+                r1 = G.run_pipeline(collapse_alt_locs(core_text, lig_res), ["--ff=AMBER", "--whitespace", "--keep-chain", "--ligand=@DIR@/lig.mol2"], extra_inputs={"lig.mol2": mol2})
+                ctx.evaluations += 1
+                if r1.status == "ok":
+                    # a loud refusal (no output) is not a wrong ligand; output next to the error would be
+                    ctx.count("complex-outcome", "fails-loudly-with-alternate-locations-only(" + r.status + ")")
+                    if r.pqr and st == "ok":
+                        out.extend(ligand_output_oracle(G.pqr_atoms(r.pqr), text, lig_res, lig, sigf, replay))
+                    return out
             ctx.count("complex-outcome", "fails-without-other-groups-too(not a transfer matter)")
             return out
         w = "hetero" if "hetero" in clash else "water" if "water" in clash else "none"
@@ -403,6 +515,7 @@ def check_complex(ctx: Ctx, rng):
         for a in res.atoms:
             if a.type != "ATOM" and a.name in want and (a.ffcharge, a.radius) == want[a.name]:
                 out.append(({"aspect": "transfer", "kind": "name-clash", "with": "water" if res.name in ("WAT", "HOH") else "hetero"}, f"{res} {a.name} carries the ligand's parameters {want[a.name]}", replay))
+    out.extend(ligand_output_oracle(lines, text, lig_res, lig, sigf, replay))
     names_written = [(t[3], t[4], t[5], t[2]) for t in lines]
     dup = {x for x in names_written if names_written.count(x) > 1}
     if dup:
@@ -415,6 +528,7 @@ def run(ctx: Ctx):
     ctx.extra["rule"] = (
         "generated MOL2 molecules (carbon chains with carboxylate/ammonium/amine/hydroxyl/thiol/phosphate/aromatic ring/amide/halogen/nitrile/carbonyl/sulfone groups, hydrogens filled in, random names) "
         "plus the stored ligands; each also renamed and permuted (atoms and bonds, bond direction); complexes: peptide window + ligand as HETATM + water + a second hetero group, some sharing an atom name with the ligand; "
+        "a second complex stream gives the ligand's HETATM records alternate locations (whole ligand or some atoms in A/B(/C), copies interleaved or conformer blocks, any listing order): each MOL2 atom name written once with the MOL2 parameters, charges summing to the formal charge; "
         "a case is (feature set, size class); distinct counts distinct tuples"
     )
     seen = set()
@@ -439,6 +553,9 @@ def run(ctx: Ctx):
         report(check_molecule(ctx, rng, types, bonds, names, f"generated#{ci}", feats))
     for ci in range(ctx.scale(15, 400)):
         report(check_complex(ctx, rng))
+    # the same complexes with the ligand's HETATM records in alternate locations
+    for ci in range(ctx.scale(14, 300)):
+        report(check_complex(ctx, rng, alt_locs=True))
 
 
 def replay(ctx: Ctx, data: dict) -> bool:
@@ -447,6 +564,20 @@ def replay(ctx: Ctx, data: dict) -> bool:
         r = G.run_pipeline(rp["pdb"], ["--ff=AMBER", "--whitespace", "--keep-chain", "--ligand=@DIR@/lig.mol2"], extra_inputs={"lig.mol2": rp["mol2"]})
         print("status:", r.status, r.exc)
         print(r.pqr[-600:] if r.pqr else "")
+        # the ligand clauses on the written file (residue name = second line of the MOL2 file, as gen_complex writes it)
+        lig_res = rp["mol2"].splitlines()[1].strip()
+        st, lig = real_params(rp["mol2"])
+        alts = sorted({l[16] for l in rp["pdb"].splitlines() if l.startswith("HETATM") and l[17:20].strip() == lig_res and l[16] != " "})
+        print("ligand", lig_res, "alternate locations in the PDB file:", alts or "none")
+        found = []
+        if st == "ok" and r.pqr:
+            found = ligand_output_oracle(G.pqr_atoms(r.pqr), rp["pdb"], lig_res, lig, "replay", rp)
+            for sig, msg, _rp in found:
+                print("VIOLATED", sig["kind"], "#", msg)
+        kind = (data.get("signature") or {}).get("kind", "")
+        if kind in ("ligand-atom-count", "ligand-charge-sum", "ligand-parameters", "ligand-position", "ligand-line-unreadable"):
+            # the clauses of ligand_output_oracle are re-evaluated here; the other kinds are shown only
+            return any(sig["kind"] == kind for sig, _m, _r in found)
         return True
     st, real = real_params(rp["mol2"])
     print(st, None if real is None else (sum(real["charge"]), sum(real["formal"])))
